@@ -88,6 +88,7 @@ func clampIdiom(c *eng.Ctx, fn *ssa.Function, min int) {
 func runC11(c *eng.Ctx) {
 	p := c.P
 	everyFamilyOfTheSegmentExamined(c)
+	loaderReadsTheLiveSlotRange(c)
 	dataLoadContextReducedOnce(c)
 	everyAtomGetsItsOwnSet(c)
 	pageBindingAndSequenceTogether(c)
